@@ -384,6 +384,29 @@ func (h *Handler) closeConnection(streamID uint64, peerID identity.AgentID, err 
 	}
 }
 
+// CloseConnectionsForPeer closes every connection that was opened on behalf of
+// peerID. It is called when the connection to that peer is gone: the streams
+// cannot continue (frames in flight are lost), and they must not resume over a
+// later connection to the same peer, whose stream ids are a new id space.
+// Returns the number of connections closed.
+func (h *Handler) CloseConnectionsForPeer(peerID identity.AgentID) int {
+	h.mu.Lock()
+	var closing []*ActiveConnection
+	for id, ac := range h.connections {
+		if ac.RemoteID == peerID {
+			delete(h.connections, id)
+			h.connCount.Add(-1)
+			closing = append(closing, ac)
+		}
+	}
+	h.mu.Unlock()
+
+	for _, ac := range closing {
+		ac.Close()
+	}
+	return len(closing)
+}
+
 // removeConnection removes a connection from tracking.
 func (h *Handler) removeConnection(streamID uint64) *ActiveConnection {
 	h.mu.Lock()
